@@ -1,5 +1,5 @@
 SPECIFICATION Spec
-CONSTANTS MaxDim = 2  Depth = 2  Emit = FALSE
+CONSTANTS MaxDim = 2  Depth = 2  FullInit = TRUE  Emit = FALSE
 VIEW View
 INVARIANTS Shape Laws
 CHECK_DEADLOCK FALSE
